@@ -1096,4 +1096,57 @@ pub mod verif_hooks {
             .map(|f| (f.name(), f.value().bits()))
             .collect()
     }
+
+
+    /// 0 invalid, 1 ltr, 2 rtl, 3 ttb, 4 btt
+    pub fn dir_from(n: u32) -> Direction {
+        match n {
+            1 => Direction::LeftToRight,
+            2 => Direction::RightToLeft,
+            3 => Direction::TopToBottom,
+            4 => Direction::BottomToTop,
+            _ => Direction::Invalid,
+        }
+    }
+
+    pub fn dir_to(d: Direction) -> u32 {
+        match d {
+            Direction::Invalid => 0,
+            Direction::LeftToRight => 1,
+            Direction::RightToLeft => 2,
+            Direction::TopToBottom => 3,
+            Direction::BottomToTop => 4,
+        }
+    }
+
+    /// `form_clusters` of the shaping pipeline on a bare buffer.
+    pub fn form_clusters(buffer: &mut hb_buffer_t) {
+        super::form_clusters(buffer)
+    }
+
+    /// `ensure_native_direction` with the given buffer direction and script (ISO 15924 tag bytes);
+    /// returns the direction the buffer has afterwards.
+    pub fn ensure_native_direction(buffer: &mut hb_buffer_t, dir: u32, script: Option<[u8; 4]>) -> u32 {
+        buffer.direction = dir_from(dir);
+        buffer.script = script.and_then(|b| Script::from_iso15924_tag(hb_tag_t::from_bytes(&b)));
+        super::ensure_native_direction(buffer);
+        dir_to(buffer.direction)
+    }
+
+    /// what `Direction::from_script` says for the tag (0 when there is no script / no direction)
+    pub fn script_horizontal_direction_tag(script: Option<[u8; 4]>) -> u32 {
+        script
+            .and_then(|b| Script::from_iso15924_tag(hb_tag_t::from_bytes(&b)))
+            .and_then(Direction::from_script)
+            .map(dir_to)
+            .unwrap_or(0)
+    }
+
+    /// the last step of `position()`: backward runs are reversed once
+    pub fn final_reverse(buffer: &mut hb_buffer_t, dir: u32) {
+        buffer.direction = dir_from(dir);
+        if buffer.direction.is_backward() {
+            buffer.reverse();
+        }
+    }
 }
